@@ -46,12 +46,12 @@ func C16(tier string) int {
 		Rule:   "one obligation per assert site per function/opcode set; non-trivial = negation sent to the solver with a reachable end marker",
 	}
 	// part (b): machines emitted by the real basm front-end (run natively on a generated source family)
-	emitted, rejected, ferrs := c16Emitted(tier, &hp)
+	emitted, rejected, ferrs := c16Emitted(tier, &hp, &hb)
 	sp.Configs = append(sp.Configs, emitted...)
 	sp.Bounds["basm_sources"] = len(emitted) + rejected
 	sp.Bounds["basm_sources_rejected_by_the_front_end"] = rejected
 	sp.Assumptions = append(sp.Assumptions,
-		"part (b): sources of a generated family (register indices up to r8, 0-3 inputs/outputs, 3-17 ROM lines, jumps to the last line, mov/inc/dec/add/cpy/clr/jz/j/i2rw/r2owa, register sizes 8/16/32) are assembled NATIVELY by the real basm front-end; for every emitted processor one simulator step from ANY pc inside the ROM and ANY register/port/flag state is decided panic-free (no index outside ROM, registers, ports, opcode list) with pc' <= len(ROM); word width, opcode order and decodability are checked concretely on the emitted machine. bondgo, neuralbond and bmqsim front-ends (floating-point opcodes) are outside")
+		"part (b): sources of a generated family (register indices up to r8, 0-3 inputs/outputs, 3-17 ROM lines, jumps to the last line, mov/inc/dec/add/cpy/clr/jz/j/i2rw/r2owa, register sizes 8/16/32) are assembled NATIVELY by the real basm front-end; for every emitted processor one simulator step from ANY pc inside the ROM and ANY register/port/flag state is decided panic-free (no index outside ROM, registers, ports, opcode list) with pc' <= len(ROM); word width, opcode order and decodability, and the bond graph (one link slot per internal input, every endpoint the port counts require exactly once, links in range, every attachment the source declares present; attachments written cpu-side first and bm-side first alternate) are checked on the concrete emitted machine - the front-end run is a sample of sources, not a solver quantification. bondgo, neuralbond and bmqsim front-ends (floating-point opcodes) are outside")
 	p := LoadProgram(sp.LoadPkgs, sp.Harnesses...)
 	loadS := time.Since(t0).Seconds()
 	outs := RunFamily(p, sp.Configs, sp.Opts)
@@ -66,7 +66,7 @@ func C16(tier string) int {
 }
 
 // c16Source renders one basm source of the family.
-func c16Source(seed, rsize, rmax, nin, nout, nlines int) string {
+func c16Source(seed, rsize, rmax, nin, nout, nlines int, bmFirst bool) string {
 	r := rand.New(rand.NewSource(int64(seed)))
 	reg := func() string { return fmt.Sprintf("r%d", r.Intn(rmax+1)) }
 	var lines []string
@@ -113,17 +113,22 @@ func c16Source(seed, rsize, rmax, nin, nout, nlines int) string {
 		sb.WriteString("        " + l + "\n")
 	}
 	sb.WriteString("_last:\n        j _start\n%endsection\n%meta cpdef  cpu   romcode: prog, execmode: ha\n")
+	// the two endpoints of an attachment may be written in either order
+	a, b := "cpu", "bm"
+	if bmFirst {
+		a, b = "bm", "cpu"
+	}
 	for i := 0; i < nin; i++ {
-		fmt.Fprintf(&sb, "%%meta ioatt  in%d   cp: cpu, index:%d, type:input\n%%meta ioatt  in%d   cp: bm,  index:%d, type:input\n", i, i, i, i)
+		fmt.Fprintf(&sb, "%%meta ioatt  in%d   cp: %s, index:%d, type:input\n%%meta ioatt  in%d   cp: %s, index:%d, type:input\n", i, a, i, i, b, i)
 	}
 	for i := 0; i < nout; i++ {
-		fmt.Fprintf(&sb, "%%meta ioatt  out%d  cp: cpu, index:%d, type:output\n%%meta ioatt  out%d  cp: bm,  index:%d, type:output\n", i, i, i, i)
+		fmt.Fprintf(&sb, "%%meta ioatt  out%d  cp: %s, index:%d, type:output\n%%meta ioatt  out%d  cp: %s, index:%d, type:output\n", i, a, i, i, b, i)
 	}
 	fmt.Fprintf(&sb, "%%meta bmdef  global registersize:%d\n", rsize)
 	return sb.String()
 }
 
-func c16Emitted(tier string, hp *Harness) (cfgs []Config, rejected int, errs []string) {
+func c16Emitted(tier string, hp, hb *Harness) (cfgs []Config, rejected int, errs []string) {
 	if err := BuildNative(); err != nil {
 		return nil, 0, []string{err.Error()}
 	}
@@ -145,7 +150,8 @@ func c16Emitted(tier string, hp *Harness) (cfgs []Config, rejected int, errs []s
 	os.MkdirAll(work, 0o755)
 	defer os.RemoveAll(work)
 	for i, s := range fam {
-		text := c16Source(Seed()*1000+i, s.rsize, s.rmax, s.nin, s.nout, s.nlines)
+		bmFirst := i%2 == 1
+		text := c16Source(Seed()*1000+i, s.rsize, s.rmax, s.nin, s.nout, s.nlines, bmFirst)
 		f := filepath.Join(work, fmt.Sprintf("s%d.basm", i))
 		os.WriteFile(f, []byte(text), 0o644)
 		out, err := Native("basm", f)
@@ -158,6 +164,50 @@ func c16Emitted(tier string, hp *Harness) (cfgs []Config, rejected int, errs []s
 			rejected++ // a source the tool cannot fit is rejected with an error: allowed by the property
 			continue
 		}
+		// the bond graph of the emitted machine against the attachments the source declares
+		var bmLine, inLine, outLine, linkLine string
+		var nm []string
+		for _, line := range strings.Split(out, "\n") {
+			switch {
+			case strings.HasPrefix(line, "BM "):
+				bmLine = line
+			case strings.HasPrefix(line, "IN "):
+				inLine = strings.TrimPrefix(line, "IN ")
+			case strings.HasPrefix(line, "OUT "):
+				outLine = strings.TrimPrefix(line, "OUT ")
+			case strings.HasPrefix(line, "LINKS "):
+				linkLine = strings.Trim(strings.TrimPrefix(line, "LINKS "), "[]")
+			case strings.HasPrefix(line, "CP "):
+				var n, m string
+				for _, f := range strings.Fields(line) {
+					if strings.HasPrefix(f, "N=") {
+						n = f[2:]
+					}
+					if strings.HasPrefix(f, "M=") {
+						m = f[2:]
+					}
+				}
+				nm = append(nm, n+":"+m)
+			}
+		}
+		var bin, bout int
+		for _, f := range strings.Fields(bmLine) {
+			if strings.HasPrefix(f, "inputs=") {
+				bin, _ = strconv.Atoi(f[7:])
+			}
+			if strings.HasPrefix(f, "outputs=") {
+				bout, _ = strconv.Atoi(f[8:])
+			}
+		}
+		var decl []string
+		for k := 0; k < s.nin; k++ {
+			decl = append(decl, fmt.Sprintf("i%d>p0i%d", k, k))
+		}
+		for k := 0; k < s.nout; k++ {
+			decl = append(decl, fmt.Sprintf("p0o%d>o%d", k, k))
+		}
+		cfgs = append(cfgs, Config{Name: name + fmt.Sprintf(" bond graph (bm side first=%v)", bmFirst), Func: "zzC16EmittedBM", Harness: hb,
+			Args: []Arg{I(bin), I(bout), S(strings.Join(nm, ",")), S(inLine), S(outLine), S(linkLine), S(strings.Join(decl, ","))}})
 		for _, line := range strings.Split(out, "\n") {
 			if !strings.HasPrefix(line, "CP ") {
 				continue
@@ -172,6 +222,9 @@ func c16Emitted(tier string, hp *Harness) (cfgs []Config, rejected int, errs []s
 			cfgs = append(cfgs, Config{Name: name + " " + strings.Fields(line)[0] + strings.Fields(line)[1] + " ops=" + kv["ops"], Func: "zzC16Emitted", Harness: hp,
 				Args: []Arg{I(at("rsize")), I(at("R")), I(at("N")), I(at("M")), I(at("L")), I(at("O")), I(at("wordsize")), S(kv["ops"]), S(kv["rom"])}})
 		}
+	}
+	if rejected*2 > len(fam) {
+		errs = append(errs, fmt.Sprintf("the front-end rejected %d of %d generated sources (about one in eight is expected): the source family no longer matches the assembler's input language", rejected, len(fam)))
 	}
 	return cfgs, rejected, errs
 }
